@@ -32,6 +32,7 @@ type Gen struct {
 	out       *xvlib.Out
 	confirmed map[int]bool // blocks in main's ledger
 	nontriv   bool
+	stop      bool // a race of this history already broke a property: the node is in a state no history reaches, stop here
 	canon     []string
 }
 
@@ -39,7 +40,7 @@ func (g *Gen) emit(line string) string {
 	ans := g.emit1(line)
 	// after every mutating op the full observation is compared with the model
 	switch strings.Fields(line)[0] {
-	case "dotx", "play", "playminer", "walk", "walktrace", "reopen", "race2", "balrace", "selrace", "raced":
+	case "dotx", "play", "playminer", "walk", "walktrace", "reopen", "race2", "race3", "flood", "balrace", "selrace", "raced":
 		g.emit1("obs")
 	case "mtruncate":
 		g.emit1("obs")
@@ -340,7 +341,8 @@ func (g *Gen) scenario(p *Profile) {
 	g.emit(fmt.Sprintf("reset fee=%d w=%d alloc=1000,500,300", f, win))
 	g.confirmed = map[int]bool{0: true}
 	w := e.w
-	for step := 0; step < p.Steps; step++ {
+	g.stop = false
+	for step := 0; step < p.Steps && !g.stop; step++ {
 		act := g.pick(p.W)
 		switch act {
 		case "xfer":
@@ -420,6 +422,10 @@ func (g *Gen) scenario(p *Profile) {
 			if a != b {
 				g.emit(fmt.Sprintf("race2 %d %d", a, b))
 			}
+		case "race3":
+			g.race3() // race3.go
+		case "flood":
+			g.flood()
 		case "walkrace":
 			g.walkRace() // walkrace.go
 		case "selrace":
@@ -719,6 +725,9 @@ func (g *Gen) scenario(p *Profile) {
 		}
 	}
 	for _, c := range p.EndChecks {
+		if g.stop {
+			break
+		}
 		if c == "sync" {
 			g.syncState()
 			continue
